@@ -98,6 +98,8 @@ def replay(case, factory):
 
 def schedule_stats(stats, sch, case):
     stats.inc("runs")
+    if sch.lock_yields:
+        stats.inc("lock_contention_yields", sch.lock_yields)
     stats.inc("steps", sch.step)
     stats.inc("preemptions", sch.switches)
     stats.inc("policy:" + case.get("policy", {}).get("kind", "replay"))
